@@ -1,0 +1,104 @@
+// Copyright 2018 Blues Inc.  All rights reserved.
+// Use of this source code is governed by licenses granted by the
+// copyright holder including that found in the LICENSE file.
+
+//go:build verif
+// +build verif
+
+package jsonata
+
+import (
+	"reflect"
+	"sync"
+	"unsafe"
+
+	"github.com/blues/jsonata-go/jparse"
+)
+
+// Simulation hooks for the deterministic-simulation harness
+// in /verif. They only exist when the package is built with
+// the "verif" build tag and do nothing until the harness
+// installs its functions.
+
+var (
+	// VerifYield is called at points where the calling
+	// goroutine is about to touch state that is shared with
+	// other evaluations.
+	VerifYield func(site string, obj interface{})
+
+	// VerifStep is called on entry to the evaluation of
+	// every node. A non-nil error aborts the evaluation.
+	VerifStep func(node jparse.Node) error
+
+	// VerifLockWait is called on the line before the global
+	// registry mutex is acquired.
+	VerifLockWait func(mu *sync.RWMutex, write bool)
+)
+
+func simYield(site string, obj interface{}) {
+	if f := VerifYield; f != nil {
+		f(site, obj)
+	}
+}
+
+func simStep(node jparse.Node) error {
+	if f := VerifStep; f != nil {
+		return f(node)
+	}
+	return nil
+}
+
+func simLockWait(mu *sync.RWMutex, write bool) {
+	if f := VerifLockWait; f != nil {
+		f(mu, write)
+	}
+}
+
+// VerifRoot returns the root of an Expr's syntax tree.
+func VerifRoot(e *Expr) jparse.Node {
+	return e.node
+}
+
+// VerifRegistryLen returns the number of entries in the
+// package-level registry.
+func VerifRegistryLen() int {
+	globalRegistryMutex.RLock()
+	defer globalRegistryMutex.RUnlock()
+	return len(globalRegistry)
+}
+
+// VerifResetGlobals puts the package-level state back to
+// what it is at program start: the global registry is
+// emptied and, where the built-in function objects carry
+// per-call fields (name, context), those are restored to
+// their initial values. Fields are found by reflection so
+// that this file does not depend on their presence.
+func VerifResetGlobals() {
+
+	globalRegistryMutex.Lock()
+	globalRegistry = nil
+	globalRegistryMutex.Unlock()
+
+	for name, v := range baseEnv.symbols {
+		verifResetCallable(v, name)
+	}
+	verifResetCallable(reflect.ValueOf(milisT), "millis")
+	verifResetCallable(reflect.ValueOf(nowT), "now")
+}
+
+func verifResetCallable(v reflect.Value, name string) {
+
+	if v.Kind() != reflect.Ptr || v.IsNil() || v.Elem().Kind() != reflect.Struct {
+		return
+	}
+	s := v.Elem()
+
+	if f := s.FieldByName("name"); f.IsValid() && f.Kind() == reflect.String && f.CanAddr() {
+		*(*string)(unsafe.Pointer(f.UnsafeAddr())) = name
+	}
+
+	var zero reflect.Value
+	if f := s.FieldByName("context"); f.IsValid() && f.Type() == reflect.TypeOf(zero) && f.CanAddr() {
+		*(*reflect.Value)(unsafe.Pointer(f.UnsafeAddr())) = zero
+	}
+}
